@@ -35,12 +35,13 @@ def table_inc():
             S = "hs_sets::types::%s" % name
             T = "hs_sets::schema::types::%s" % name
             s += ("struct ent_%s { unsigned idx; bool (*get)(%s); bool (*get_tag)(%s); void (*set)(%s&, bool); "
-                  "void (*set_tag)(%s&, bool); };\n" % (name, S, S, S, S))
+                  "void (*set_tag)(%s&, bool); bool (*chain)(%s&, bool); };\n" % (name, S, S, S, S, S))
             s += "static const ent_%s tab_%s[] = {\n" % (name, name)
             for i in declared(name):
                 s += ("  { %d, [](%s s){ return s.c%d(); }, [](%s s){ return sbepp::get_by_tag<%s::c%d>(s); },"
-                      " [](%s& s, bool b){ s.c%d(b); }, [](%s& s, bool b){ sbepp::set_by_tag<%s::c%d>(s, b); } },\n"
-                      % (i, S, i, S, T, i, S, i, S, T, i))
+                      " [](%s& s, bool b){ s.c%d(b); }, [](%s& s, bool b){ sbepp::set_by_tag<%s::c%d>(s, b); },"
+                      " [](%s& s, bool b){ return same_object(s, s.c%d(b)); } },\n"
+                      % (i, S, i, S, T, i, S, i, S, T, i, S, i))
             s += "};\n"
     return s
 
@@ -151,7 +152,7 @@ def run(res, replay=None):
         sv = g_s["set"]
         # visit (tags) and visit_set (names): every declared choice once, in declaration order, with its own bit
         vs = ",".join("c%d:%s" % (idx, bit) for idx, bit in zip(decl_of(c), vis))
-        gen_exp.append("get=%s bytag=%s set=%s setbytag=%s visit=%s order=1 vs=%s eq=1%d ne=%d" % (
+        gen_exp.append("get=%s bytag=%s set=%s setbytag=%s chain=1 visit=%s order=1 vs=%s eq=1%d ne=%d" % (
             g_s["get"], g_s["get"], sv, sv, vis, vs, 1 if sv == str(v) else 0, 0 if sv == str(v) else 1))
 
     for cxx, std, flags in configs:
